@@ -184,6 +184,26 @@ prop("C01", "exploration",
      "runtime monitor: keyed-stream content oracle + conservation against shim byte counts + stuck predicate", "DESIGN.md §3 C01", assumptions=ENGINE_ASSUME)
 
 
+prop("C02", "exploration",
+     "cases = connections: per engine configuration (as C01, plus 4K socket send buffers on a third of them) 8 (thorough 16) connections each run a PRNG-generated script: optional OnOpen reply, 3-25 "
+     "synchronous operations (Write, Writev with empty and >1024 segments, ReadFrom(+hostile reader)+Flush) executed in Wake-driven batches inside OnTraffic, 0-2 goroutines issuing 1-20 "
+     "AsyncWrite/AsyncWritev each, and in a quarter of the connections a burst of 1100-2600 alternating AsyncWrite/AsyncWritev issued back to back by one goroutine; every operation carries "
+     "self-describing records [magic|producer|seq|len|payload=f(key,producer,seq)|crc32], sizes {0,1,small,WriteBufferCap+-1,2*cap,100K..1M}; the peer reads {immediately, trickling a bounded "
+     "prefix, after a stall, after the server's OutboundBuffered exceeded 64K}; the shim turns write/writev into real short writes (LT, ET) and EAGAIN (LT). Oracle: inside callbacks "
+     "OutboundBuffered == accepted - bytes the kernel took (shim); offline at the peer: the stream parses completely into intact records, per producer seq = 0,1,2,... in issue order, record counts "
+     "equal the accepted operations; stalls are decided by the stuck predicate while the peer keeps reading. distinct_nontrivial = distinct (configuration class, operation kind, buffer-state class "
+     "{direct, ring, ring-at-limit, list}, kernel-acceptance class {full, partial, none}) and (configuration class, peer schedule) tuples verified",
+     [
+         {"harness": "eng", "flavour": "shim", "args": {"quick": ["--mode", "c02"], "thorough": ["--mode", "c02"]}, "timeout": {"quick": 900, "thorough": 3400}},
+         {"harness": "eng", "flavour": "shim", "tags": ["poll_opt"], "args": {"quick": ["--mode", "c02", "--n", "4"], "thorough": ["--mode", "c02", "--n", "40"]}, "timeout": {"quick": 900, "thorough": 3400}},
+         {"harness": "eng", "flavour": "shim", "tags": ["gc_opt"], "args": {"quick": ["--mode", "c02", "--n", "3"], "thorough": ["--mode", "c02", "--n", "40"]}, "timeout": {"quick": 900, "thorough": 3400}},
+         {"harness": "eng", "flavour": "shim", "race": True, "tiers": ["thorough"], "args": {"thorough": ["--mode", "c02", "--n", "24"]}, "timeout": {"thorough": 3400}},
+     ],
+     "Peer-side record oracle over the received byte stream of real connections plus an in-callback conservation check against the shim's byte counts.",
+     "cross-producer order is not constrained by the statement and is not checked; TCP peers use receive buffers >= 2*MSS (smaller ones make the loopback TCP crawl at persist-timer speed)",
+     "runtime monitor: self-describing record stream oracle + conservation against shim byte counts + stuck predicate", "DESIGN.md §3 C02", assumptions=ENGINE_ASSUME)
+
+
 # ---------------------------------------------------------------------------------------
 NOT_APPLICABLE = []
 
